@@ -69,6 +69,8 @@ class P(vlib.Prop):
             "Start/Shutdown of the shared component; 4 signals incl. profiles; the graph harness delivers through graph.Host."
             "NotifyComponentStatusChange to a real watcher extension. After the correspondence pass the clause checker prop_code is "
             "evaluated in Coq over the observed behaviour of every case. "
+            "Round 7: extensions built by the real extensions.New on generated service::extensions lists (40% name an extension 2-3 "
+            "times); kind-5 cases carry the configured list, the computed order and the watchers. "
             "A case is non-trivial when at least one event is delivered (status) / a second instance attaches (shared); "
             "distinct = distinct case terms.")
     trusted_base = [
@@ -81,7 +83,8 @@ class P(vlib.Prop):
         "a wrong reading costs sensitivity, never soundness (the verdict is the linearisability search)",
         "modelled by hand, tied by correspondence: fsm.transition, reporter.ReportStatus/ReportOKIfStarting, hostWrapper.Report/addSource, "
         "the status reports of graph.StartAll/ShutdownAll and Extensions.Start/Shutdown around component Start/Shutdown, "
-        "Graph.createReceiver/createProcessor/createExporter/createConnector (instance identities), Extensions.NotifyComponentStatusChange",
+        "Graph.createReceiver/createProcessor/createExporter/createConnector (instance identities), Extensions.NotifyComponentStatusChange, "
+        "the key set of extensions.New / computeOrder (ext_ids)",
     ]
     assumptions = [
         "each report is atomic (reporter.mu held across lookup, decision, transition and callback) — validated on every run by harness conc "
